@@ -60,7 +60,10 @@ type Violation struct {
 
 // Result of running a scenario.
 type Result struct {
-	Viol       *Violation
+	Viol *Violation
+	// Deferred: a violation of a property other than the one under test after
+	// which the model could carry on; it becomes Viol if nothing else is found
+	Deferred   *Violation
 	Labels     map[string]bool
 	Installs   int
 	Rejects    int
@@ -191,6 +194,7 @@ type run struct {
 	evPending  bool
 	evVal      int
 	contentTag string
+	errReports int
 	unregDone  map[int]bool
 	asyncs     map[int]*asyncRes // pending unregisters by handle
 }
@@ -204,6 +208,23 @@ func (r *run) viol(tag, format string, a ...any) {
 }
 
 func (r *run) label(l string) { r.res.Labels[l] = true }
+
+// curProp is the property whose test is running (set by runTagged); "" = any.
+var curProp string
+
+// deferViol records a violation that does not bear on the property under test
+// and lets the scenario go on (the caller brings the model in line with what
+// the code claimed); it reports true when it did so.
+func (r *run) deferViol(tag, format string, a ...any) bool {
+	if curProp == "" || strings.Contains(tag, curProp) {
+		return false
+	}
+	if r.res.Deferred == nil {
+		r.res.Deferred = &Violation{Tag: tag, Msg: fmt.Sprintf(format, a...)}
+	}
+	r.label("went-on-after-other-property:" + tag)
+	return true
+}
 
 func (r *run) onVerify(c *SimCfg, err error) {
 	if r.free != nil {
@@ -326,6 +347,9 @@ func RunScenario(t *testing.T, sc *Scenario) (res *Result) {
 			r.main()
 		})
 	}()
+	if res.Viol == nil && res.Deferred != nil {
+		res.Viol = res.Deferred
+	}
 	return res
 }
 
